@@ -3,9 +3,11 @@
        length with or without UNSIGNED, character length, exact number, time/timestamp with all four
        time-zone forms), under the decidable side condition [family_consistent] on the generated
        tables: parsing the printed tokens followed by anything in the Follow set returns the value.
-    2. [nest_parse]: nesting to any depth of ARRAY<..> (with the [>>] trailing-bracket bookkeeping),
+    2. [nest_inv]: nesting to any depth of ARRAY<..> (with the [>>] trailing-bracket bookkeeping),
+       square-bracket suffixes [..[]] / [..[n]] (also directly after a type closed by [>>]),
        Nullable(..) and LowCardinality(..) over those families: the invariant "a child that
-       consumed [>>] reports it and the parent skips its own [>]", on the *glued* token stream.
+       consumed [>>] reports it, skips its own suffix loop, and the parent skips its own [>]",
+       on the *glued* token stream.
     3. corollaries: followed by a Follow token (cast, column definition), stand-alone.
     Nothing here mentions /repo data. *)
 Require Import SqlV.Base SqlV.DataTypeRT.
@@ -86,16 +88,10 @@ Section Leaf.
   Qed.
 
   (** unfolding of the helper on a keyword whose row is regular *)
-  Lemma helper_alts fuel w r alts r_kw_ r_gate_ :
+  Lemma main_alts fuel w r alts r_kw_ r_gate_ :
     find_parow (t_parse T) d (ascii_upper w) = Some {| r_kw := r_kw_; r_gate := r_gate_; r_kind := RAlts alts |} ->
-    parse_helper T d (S fuel) (TWord w :: r) =
-      match run_alts alts r with
-      | POk t tr r' =>
-          match q_square d (S (length r')) t r' with
-          | Some (t', r'') => POk t' tr r''
-          | None => PErr end
-      | PErr => PErr end.
-  Proof. intro H. cbn [parse_helper]. rewrite H. reflexivity. Qed.
+    parse_main T d (S fuel) (TWord w :: r) = run_alts alts r.
+  Proof. intro H. cbn [parse_main]. rewrite H. reflexivity. Qed.
 
   Lemma q_square_stop n t rest :
     match rest with TLBracket :: _ => False | _ => True end ->
@@ -103,18 +99,23 @@ Section Leaf.
   Proof. destruct rest as [|x rest]; cbn [q_square]; [reflexivity|]. destruct x; intro H; try reflexivity. contradiction. Qed.
 
   Lemma follow_head_kw rest k :
-    follow_ok T rest = true -> In k (absorb_kws T) -> head_not_kw k rest.
+    follow_main T rest = true -> In k (absorb_kws T) -> head_not_kw k rest.
   Proof.
     destruct rest as [|t rest]; cbn [head_not_kw]; [trivial|].
-    intros H Hin. destruct t; try reflexivity. cbn [follow_ok] in H. cbn [is_kw].
+    intros H Hin. destruct t; try reflexivity. cbn [follow_main] in H. cbn [is_kw].
     destruct (str_eqb (ascii_upper w) k) eqn:E; [|reflexivity].
     apply str_eqb_eq in E. subst k. apply mem_str_In in Hin. rewrite Hin in H. discriminate.
   Qed.
 
-  Lemma follow_not_lparen rest : follow_ok T rest = true -> match rest with TLParen :: _ => False | _ => True end.
+  Lemma follow_not_lparen rest : follow_main T rest = true -> match rest with TLParen :: _ => False | _ => True end.
   Proof. destruct rest as [|t rest]; [trivial|]. destruct t; trivial. discriminate. Qed.
+  Lemma follow_ok_main rest : follow_ok T rest = true -> follow_main T rest = true.
+  Proof. unfold follow_ok. intro H. apply andb_true_iff in H as [H _]. exact H. Qed.
   Lemma follow_not_lbracket rest : follow_ok T rest = true -> match rest with TLBracket :: _ => False | _ => True end.
-  Proof. destruct rest as [|t rest]; [trivial|]. destruct t; trivial. discriminate. Qed.
+  Proof.
+    unfold follow_ok. intro H. apply andb_true_iff in H as [_ H].
+    destruct rest as [|t rest]; [trivial|]. destruct t; trivial. discriminate.
+  Qed.
 
   Lemma q_optparen_print n tl :
     optN_le n = true -> match tl with TLParen :: _ => False | _ => True end ->
@@ -202,20 +203,14 @@ Section Leaf.
     In r (t_print T) ->
     (forall k, In k (all_alt_kws T) -> head_not_kw k tl) ->
     exists a, fam_matches (p_ctor r) (p_fam r) a = true /\
-      parse_helper T d (S fuel) (words (p_words r) ++ tl) =
-        match run_leaf a tl with
-        | POk t tr r' =>
-            match q_square d (S (length r')) t r' with
-            | Some (t', r'') => POk t' tr r''
-            | None => PErr end
-        | PErr => PErr end.
+      parse_main T d (S fuel) (words (p_words r) ++ tl) = run_leaf a tl.
   Proof.
     intros Hin Hk. destruct (row_facts r Hin) as (w0 & ws & row & alts & a & Hw & Hf & Hg & Hkd & Hs & Hm).
     exists a. split; [exact Hm|]. rewrite Hw. cbn [words map app].
     destruct (find_kw_In _ _ _ Hf) as [Hrow _].
     pose proof (find_kw_parow _ _ _ d Hf Hg) as Hp.
     destruct row as [kw g k]. cbn [r_gate r_kind] in *. subst g k.
-    rewrite (helper_alts fuel w0 _ alts kw None Hp).
+    rewrite (main_alts fuel w0 _ alts kw None Hp).
     change (map TWord ws) with (words ws).
     rewrite (select_run_alts alts ws a tl Hs).
     - reflexivity.
@@ -227,7 +222,7 @@ Section Leaf.
   Lemma absorb_fam k : In k family_kws -> In k (absorb_kws T).
   Proof. intro H. unfold absorb_kws. apply in_or_app. left. exact H. Qed.
 
-  Lemma follow_alt_kws rest : follow_ok T rest = true -> forall k, In k (all_alt_kws T) -> head_not_kw k rest.
+  Lemma follow_alt_kws rest : follow_main T rest = true -> forall k, In k (all_alt_kws T) -> head_not_kw k rest.
   Proof. intros H k Hk. apply follow_head_kw; [exact H|apply absorb_alt; exact Hk]. Qed.
 
   (** a family keyword at the head is not a continuation keyword of any row *)
@@ -245,7 +240,7 @@ Section Leaf.
   Lemma in_fam_WITHOUT : In (s2l "WITHOUT") family_kws. Proof. cbn. auto 10. Qed.
 
   Lemma not_kw_follow k rest :
-    follow_ok T rest = true -> In k family_kws ->
+    follow_main T rest = true -> In k family_kws ->
     match rest with t :: _ => is_kw k t = false | [] => True end.
   Proof. intros H Hk. apply (follow_head_kw rest k H). apply absorb_fam. exact Hk. Qed.
 
@@ -254,7 +249,7 @@ Section Leaf.
     forall k, In k (all_alt_kws T) -> head_not_kw k (p_optparen n ++ tl).
   Proof. intros H k Hk. destruct n; cbn [p_optparen app]; [reflexivity|apply H; exact Hk]. Qed.
 
-  Lemma q_tz_none rest : follow_ok T rest = true -> q_tz rest = Some (TzNone, rest).
+  Lemma q_tz_none rest : follow_main T rest = true -> q_tz rest = Some (TzNone, rest).
   Proof.
     intro H. destruct rest as [|t rest]; [reflexivity|]. cbn [q_tz].
     pose proof (not_kw_follow (s2l "WITH") _ H in_fam_WITH) as H1.
@@ -267,13 +262,12 @@ Section Leaf.
   Lemma q_tz_without rest : q_tz (W "WITHOUT" :: W "TIME" :: W "ZONE" :: rest) = Some (TzWithout, rest).
   Proof. reflexivity. Qed.
 
-  Theorem leaf_parse t rest fuel :
-    leaf_wf T t = true -> follow_ok T rest = true ->
-    parse_helper T d (S fuel) (print_dt T t ++ rest) = POk t false rest.
+  Theorem leaf_main t rest fuel :
+    leaf_wf T t = true -> follow_main T rest = true ->
+    parse_main T d (S fuel) (print_dt T t ++ rest) = POk t false rest.
   Proof.
     intros Hwf Hfol.
     pose proof (follow_not_lparen _ Hfol) as Hnl.
-    pose proof (follow_not_lbracket _ Hfol) as Hnb.
     destruct t; cbn [leaf_wf] in Hwf; try discriminate; cbn [print_dt].
     - (* nullary *)
       destruct (find_prow (t_print T) c) as [[c' f ws]|] eqn:Ef; [|discriminate].
@@ -281,8 +275,7 @@ Section Leaf.
       destruct (find_prow_spec _ _ _ Ef) as [Hin Hc]. cbn [p_ctor] in Hc. subst c'.
       destruct (leaf_dispatch _ fuel rest Hin (follow_alt_kws rest Hfol)) as (a & Hm & Hp).
       cbn [p_words p_ctor p_fam] in *. rewrite Hp. unfold fam_matches in Hm. unfold run_leaf.
-      destruct (a_fam a); try discriminate. apply str_eqb_eq in Hm. rewrite Hm.
-      rewrite (q_square_stop _ _ rest Hnb). reflexivity.
+      destruct (a_fam a); try discriminate. apply str_eqb_eq in Hm. rewrite Hm. reflexivity.
     - (* optional length *)
       destruct (find_prow (t_print T) c) as [[c' f ws]|] eqn:Ef; [|discriminate].
       destruct f as [|u| | |]; try discriminate.
@@ -296,14 +289,11 @@ Section Leaf.
       destruct u, (a_fam a) as [| |uc| | | | |]; try discriminate; apply str_eqb_eq in Hm.
       + (* unsigned *)
         cbn [app]. rewrite (q_optparen_print n (W "UNSIGNED" :: rest) Hwf I). cbn iota.
-        change (is_kw (s2l "UNSIGNED") (W "UNSIGNED")) with true. cbn iota. subst uc.
-        rewrite (q_square_stop _ _ rest Hnb). reflexivity.
-      + cbn [app]. rewrite (q_optparen_print n _ Hwf Hnl). rewrite Hm.
-        rewrite (q_square_stop _ _ rest Hnb). reflexivity.
+        change (is_kw (s2l "UNSIGNED") (W "UNSIGNED")) with true. cbn iota. subst uc. reflexivity.
+      + cbn [app]. rewrite (q_optparen_print n _ Hwf Hnl). rewrite Hm. reflexivity.
       + cbn [app]. rewrite (q_optparen_print n _ Hwf Hnl). rewrite Hm.
         pose proof (not_kw_follow (s2l "UNSIGNED") _ Hfol in_fam_UNSIGNED) as Hu.
-        destruct rest as [|x rest]; [reflexivity|]. cbn iota in Hu. rewrite Hu.
-        rewrite (q_square_stop _ _ (x :: rest) Hnb). reflexivity.
+        destruct rest as [|x rest]; [reflexivity|]. cbn iota in Hu. rewrite Hu. reflexivity.
     - (* character length *)
       destruct (find_prow (t_print T) c) as [[c' f ws]|] eqn:Ef; [|discriminate].
       destruct f; try discriminate.
@@ -314,7 +304,7 @@ Section Leaf.
         apply follow_alt_kws; assumption. }
       cbn [p_words p_ctor p_fam] in *. rewrite Hp. unfold fam_matches in Hm. unfold run_leaf.
       destruct (a_fam a); try discriminate. apply str_eqb_eq in Hm. rewrite Hm.
-      rewrite (q_charlen_print l rest Hwf Hnl). rewrite (q_square_stop _ _ rest Hnb). reflexivity.
+      rewrite (q_charlen_print l rest Hwf Hnl). reflexivity.
     - (* exact number *)
       destruct (find_prow (t_print T) c) as [[c' f ws]|] eqn:Ef; [|discriminate].
       destruct f; try discriminate.
@@ -324,7 +314,7 @@ Section Leaf.
       { intros k Hk. destruct e; cbn [p_exact app]; try reflexivity. apply follow_alt_kws; assumption. }
       cbn [p_words p_ctor p_fam] in *. rewrite Hp. unfold fam_matches in Hm. unfold run_leaf.
       destruct (a_fam a); try discriminate. apply str_eqb_eq in Hm. rewrite Hm.
-      rewrite (q_exact_print e rest Hwf Hnl). rewrite (q_square_stop _ _ rest Hnb). reflexivity.
+      rewrite (q_exact_print e rest Hwf Hnl). reflexivity.
     - (* time *)
       destruct (find_prow (t_print T) c) as [[c' f ws]|] eqn:Ef; [|discriminate].
       destruct f; try discriminate.
@@ -336,22 +326,19 @@ Section Leaf.
         { apply paren_head_not_kw. apply follow_alt_kws; exact Hfol. }
         cbn [p_words p_ctor p_fam] in *. rewrite Hp. unfold fam_matches in Hm. unfold run_leaf.
         destruct (a_fam a); try discriminate. apply str_eqb_eq in Hm. rewrite Hm.
-        rewrite (q_optparen_print p rest Hwf Hnl). rewrite (q_tz_none rest Hfol).
-        rewrite (q_square_stop _ _ rest Hnb). reflexivity.
+        rewrite (q_optparen_print p rest Hwf Hnl). rewrite (q_tz_none rest Hfol). reflexivity.
       + rewrite <- !app_assoc.
         destruct (leaf_dispatch _ fuel (p_optparen p ++ [W "WITH"; W "TIME"; W "ZONE"] ++ rest) Hin) as (a & Hm & Hp).
         { apply paren_head_not_kw. apply fam_kw_head; [apply in_fam_WITH|reflexivity]. }
         cbn [p_words p_ctor p_fam] in *. rewrite Hp. unfold fam_matches in Hm. unfold run_leaf.
         destruct (a_fam a); try discriminate. apply str_eqb_eq in Hm. rewrite Hm.
-        cbn [app]. rewrite (q_optparen_print p (W "WITH" :: W "TIME" :: W "ZONE" :: rest) Hwf I). rewrite q_tz_with.
-        rewrite (q_square_stop _ _ rest Hnb). reflexivity.
+        cbn [app]. rewrite (q_optparen_print p (W "WITH" :: W "TIME" :: W "ZONE" :: rest) Hwf I). rewrite q_tz_with. reflexivity.
       + rewrite <- !app_assoc.
         destruct (leaf_dispatch _ fuel (p_optparen p ++ [W "WITHOUT"; W "TIME"; W "ZONE"] ++ rest) Hin) as (a & Hm & Hp).
         { apply paren_head_not_kw. apply fam_kw_head; [apply in_fam_WITHOUT|reflexivity]. }
         cbn [p_words p_ctor p_fam] in *. rewrite Hp. unfold fam_matches in Hm. unfold run_leaf.
         destruct (a_fam a); try discriminate. apply str_eqb_eq in Hm. rewrite Hm.
-        cbn [app]. rewrite (q_optparen_print p (W "WITHOUT" :: W "TIME" :: W "ZONE" :: rest) Hwf I). rewrite q_tz_without.
-        rewrite (q_square_stop _ _ rest Hnb). reflexivity.
+        cbn [app]. rewrite (q_optparen_print p (W "WITHOUT" :: W "TIME" :: W "ZONE" :: rest) Hwf I). rewrite q_tz_without. reflexivity.
       + (* TZ spelling: its own keyword *)
         pose proof (cons_rows _ Hin) as Hok. unfold prow_ok in Hok. cbn [p_words p_fam p_ctor] in Hok.
         destruct ws as [|w0 ws]; [discriminate|].
@@ -366,10 +353,18 @@ Section Leaf.
         apply str_eqb_eq in Hok. subst c2.
         cbn [glue_tz words map app].
         pose proof (find_kw_parow _ _ _ d Ef2 eq_refl) as Hp2.
-        rewrite (helper_alts fuel _ _ _ kw2 None Hp2).
+        rewrite (main_alts fuel _ _ _ kw2 None Hp2).
         cbn [run_alts a_kws take_kws]. unfold run_leaf. cbn [a_fam a_ctor].
-        rewrite (q_optparen_print p rest Hwf Hnl).
-        rewrite (q_square_stop _ _ rest Hnb). reflexivity.
+        rewrite (q_optparen_print p rest Hwf Hnl). reflexivity.
+  Qed.
+
+  (** the whole helper: nothing for the suffix loop to take *)
+  Theorem leaf_parse t rest fuel :
+    leaf_wf T t = true -> follow_ok T rest = true ->
+    parse_helper T d (S fuel) (print_dt T t ++ rest) = POk t false rest.
+  Proof.
+    intros Hwf Hfol. unfold parse_helper. rewrite (leaf_main t rest fuel Hwf (follow_ok_main _ Hfol)).
+    cbn [wrap_square]. rewrite (q_square_stop _ _ rest (follow_not_lbracket _ Hfol)). reflexivity.
   Qed.
 End Leaf.
 
@@ -429,7 +424,8 @@ Qed.
 Lemma leaf_trail T t : leaf_wf T t = true -> trail t = 0%nat /\ depth t = 0%nat.
 Proof. destruct t; cbn [leaf_wf]; try discriminate; auto. Qed.
 
-(** ** Nesting: angle arrays with the [>>] bookkeeping, Nullable / LowCardinality wrappers *)
+(** ** Nesting: angle arrays with the [>>] bookkeeping, square-bracket suffixes,
+    Nullable / LowCardinality wrappers *)
 Ltac tagchain :=
   repeat match goal with
   | |- context [str_eqb (s2l ?a) (s2l ?b)] =>
@@ -451,50 +447,50 @@ Section Nest.
   Qed.
 
   Definition top_of (r : pres) : pres := match r with POk t false r' => POk t false r' | _ => PErr end.
-  Definition wrap_square (r : pres) : pres :=
-    match r with
-    | POk t tr r' => match q_square d (S (length r')) t r' with Some (t', r'') => POk t' tr r'' | None => PErr end
-    | PErr => PErr end.
 
-  Lemma helper_nullable f r :
+  Lemma main_nullable f r :
     irr_at T d (s2l "NULLABLE") (s2l "NULLABLE#0") = true ->
-    parse_helper T d (S f) (W "Nullable" :: TLParen :: r) =
-      wrap_square (match top_of (parse_helper T d f r) with
-                   | POk t _ (TRParen :: r') => POk (DNullable t) false r'
-                   | _ => PErr end).
+    parse_main T d (S f) (W "Nullable" :: TLParen :: r) =
+      match top_of (parse_helper T d f r) with
+      | POk t _ (TRParen :: r') => POk (DNullable t) false r'
+      | _ => PErr end.
   Proof.
     intro H. destruct (irr_at_row _ _ H) as (k & g & Hf).
-    cbn [parse_helper W]. change (ascii_upper (s2l "Nullable")) with (s2l "NULLABLE"). rewrite Hf.
+    cbn [parse_main W]. change (ascii_upper (s2l "Nullable")) with (s2l "NULLABLE"). rewrite Hf.
     tagchain. reflexivity.
   Qed.
 
-  Lemma helper_lowcard f r :
+  Lemma main_lowcard f r :
     irr_at T d (s2l "LOWCARDINALITY") (s2l "LOWCARDINALITY#0") = true ->
-    parse_helper T d (S f) (W "LowCardinality" :: TLParen :: r) =
-      wrap_square (match top_of (parse_helper T d f r) with
-                   | POk t _ (TRParen :: r') => POk (DLowCard t) false r'
-                   | _ => PErr end).
+    parse_main T d (S f) (W "LowCardinality" :: TLParen :: r) =
+      match top_of (parse_helper T d f r) with
+      | POk t _ (TRParen :: r') => POk (DLowCard t) false r'
+      | _ => PErr end.
   Proof.
     intro H. destruct (irr_at_row _ _ H) as (k & g & Hf).
-    cbn [parse_helper W]. change (ascii_upper (s2l "LowCardinality")) with (s2l "LOWCARDINALITY"). rewrite Hf.
+    cbn [parse_main W]. change (ascii_upper (s2l "LowCardinality")) with (s2l "LOWCARDINALITY"). rewrite Hf.
     tagchain. reflexivity.
   Qed.
 
-  Lemma helper_angle f r :
+  Lemma main_angle f r :
     irr_at T d (s2l "ARRAY") (s2l "ARRAY#0") = true ->
     str_eqb d (s2l "snowflake") = false -> str_eqb d (s2l "clickhouse") = false ->
-    parse_helper T d (S f) (W "ARRAY" :: TLt :: r) =
-      wrap_square (match parse_helper T d f r with
-                   | POk t tr r2 =>
-                       match q_close_angle tr r2 with
-                       | Some (tr', r3) => POk (DArrayAngle t) tr' r3
-                       | None => PErr end
-                   | PErr => PErr end).
+    parse_main T d (S f) (W "ARRAY" :: TLt :: r) =
+      match parse_helper T d f r with
+      | POk t tr r2 =>
+          match q_close_angle tr r2 with
+          | Some (tr', r3) => POk (DArrayAngle t) tr' r3
+          | None => PErr end
+      | PErr => PErr end.
   Proof.
     intros H Hs Hc. destruct (irr_at_row _ _ H) as (k & g & Hf).
-    cbn [parse_helper W]. change (ascii_upper (s2l "ARRAY")) with (s2l "ARRAY"). rewrite Hf.
+    cbn [parse_main W]. change (ascii_upper (s2l "ARRAY")) with (s2l "ARRAY"). rewrite Hf.
     tagchain. rewrite Hs, Hc. reflexivity.
   Qed.
+
+  (** a [[n]] suffix the dialect can parse back *)
+  Definition size_ok (n : option N) : bool :=
+    match n with None => true | Some k => (k <=? u64_max) && mem_str d square_size_dialects end.
 
   Inductive PF : dt -> Prop :=
   | PF_leaf t : leaf_wf T t = true -> PF t
@@ -502,81 +498,176 @@ Section Nest.
   | PF_lowcard u : irr_at T d (s2l "LOWCARDINALITY") (s2l "LOWCARDINALITY#0") = true -> PF u -> PF (DLowCard u)
   | PF_angle u : irr_at T d (s2l "ARRAY") (s2l "ARRAY#0") = true ->
                  str_eqb d (s2l "snowflake") = false -> str_eqb d (s2l "clickhouse") = false ->
-                 PF u -> PF (DArrayAngle u).
+                 PF u -> PF (DArrayAngle u)
+  | PF_square u n : size_ok n = true -> PF u -> PF (DArraySquare u n).
 
   Definition flag (t : dt) (m : nat) : bool := Nat.odd (trail t) && negb (Nat.eqb m 0).
 
-  Lemma follow_top_parts rest :
-    follow_top T rest = true -> follow_ok T rest = true /\ head_not_gt rest /\ match rest with TShr :: _ => False | _ => True end.
+  (** suffixes [[n1]][n2]..] and the value they build *)
+  Fixpoint sufx (l : list (option N)) : list tok :=
+    match l with
+    | [] => []
+    | n :: r => TLBracket :: match n with None => [] | Some k => [TNum k] end ++ TRBracket :: sufx r
+    end.
+  Fixpoint wrapsq (t : dt) (l : list (option N)) : dt :=
+    match l with [] => t | n :: r => wrapsq (DArraySquare t n) r end.
+
+  Definition no_closer (rest : list tok) : Prop :=
+    match rest with TGt :: _ | TShr :: _ => False | _ => True end.
+
+  (** what may follow [m] pending closing brackets *)
+  Definition cond_main (m : nat) (rest : list tok) : Prop :=
+    no_closer rest /\ (m = 0%nat -> follow_main T rest = true).
+  Definition cond_top (m : nat) (rest : list tok) : Prop :=
+    no_closer rest /\ (m = 0%nat -> follow_ok T rest = true).
+
+  Lemma no_closer_gt rest : no_closer rest -> head_not_gt rest.
+  Proof. destruct rest as [|x r]; [trivial|]. intro H. destruct x; try exact I; contradiction. Qed.
+
+  Lemma glue_keep_head rest : no_closer rest ->
+    match rest with [] => glue rest = [] | x :: r => exists r', glue rest = x :: r' end.
+  Proof. destruct rest as [|x r]; [reflexivity|]. intro H. destruct x; try (eexists; reflexivity). contradiction. Qed.
+
+  Lemma follow_main_glue rest : no_closer rest -> follow_main T rest = true -> follow_main T (glue rest) = true.
   Proof.
-    unfold follow_top. intro H. apply andb_true_iff in H as [H1 H2]. split; [exact H1|].
-    destruct rest as [|x r]; [split; exact I|]. destruct x; try discriminate; split; exact I.
+    intros Hn H. pose proof (glue_keep_head rest Hn) as G. destruct rest as [|x r]; [reflexivity|].
+    destruct G as [r' E]. rewrite E. destruct x; try exact H; try reflexivity.
   Qed.
 
-  Lemma follow_glue rest : follow_top T rest = true -> follow_ok T (glue rest) = true.
+  Lemma follow_main_close_glue m rest : cond_main m rest -> follow_main T (close m ++ glue rest) = true.
   Proof.
-    intro H. destruct (follow_top_parts _ H) as (H1 & H2 & _).
-    destruct rest as [|x r]; [reflexivity|]. destruct x; try exact H1; try discriminate.
+    intros [Hn Hf]. destruct m as [|[|k]]; cbn [close app]; [|reflexivity|reflexivity].
+    apply follow_main_glue; [exact Hn|apply Hf; reflexivity].
   Qed.
 
-  Lemma follow_close_glue m rest : follow_top T rest = true -> follow_ok T (close m ++ glue rest) = true.
+  Lemma not_lbracket_glue rest :
+    no_closer rest -> follow_ok T rest = true -> match glue rest with TLBracket :: _ => False | _ => True end.
   Proof.
-    intro H. destruct m as [|[|k]]; cbn [close app]; [apply follow_glue; exact H|reflexivity|reflexivity].
+    intros Hn H. pose proof (follow_not_lbracket T _ H) as Hb. pose proof (glue_keep_head rest Hn) as G.
+    destruct rest as [|x r]; [exact I|]. destruct G as [r' E]. rewrite E. exact Hb.
   Qed.
 
   Lemma not_lbracket_close_glue m rest :
-    follow_top T rest = true -> match close m ++ glue rest with TLBracket :: _ => False | _ => True end.
-  Proof. intro H. apply (follow_not_lbracket T). apply follow_close_glue. exact H. Qed.
-
-  Theorem nest_parse t :
-    PF t -> forall fuel m rest, (depth t < fuel)%nat -> follow_top T rest = true ->
-    parse_helper T d fuel (glue (print_dt T t ++ repeat TGt m ++ rest)) =
-      POk t (flag t m) (close (m - (if flag t m then 1 else 0)) ++ glue rest).
+    cond_top m rest -> match close m ++ glue rest with TLBracket :: _ => False | _ => True end.
   Proof.
-    induction 1 as [t Hl | u Hi _ IH | u Hi _ IH | u Hi Hs Hc _ IH]; intros fuel m rest Hd Hf;
-      destruct (follow_top_parts _ Hf) as (Hfo & Hng & Hns).
-    - (* table-driven families *)
-      destruct (leaf_trail T t Hl) as [Ht _]. unfold flag. rewrite Ht. cbn [Nat.odd andb]. rewrite Nat.sub_0_r.
-      rewrite (glue_nogt_app _ _ (leaf_no_gt T t Hl)). rewrite (glue_repeat m rest Hng).
-      destruct fuel as [|f]; [lia|].
-      apply (leaf_parse T d Hcons); [exact Hl|apply follow_close_glue; exact Hf].
-    - (* Nullable(u) *)
-      destruct fuel as [|f]; [lia|]. cbn [depth] in Hd.
-      unfold flag. cbn [trail Nat.odd andb]. rewrite Nat.sub_0_r.
-      cbn [print_dt]. cbn [app]. rewrite <- app_assoc. cbn [app glue W].
-      rewrite (helper_nullable f _ Hi).
-      change (TRParen :: repeat TGt m ++ rest) with (repeat TGt 0 ++ TRParen :: repeat TGt m ++ rest).
-      rewrite (IH f 0%nat (TRParen :: repeat TGt m ++ rest)); [|lia|reflexivity].
-      unfold flag. rewrite Bool.andb_false_r. cbn [top_of close app Nat.sub glue].
-      rewrite (glue_repeat m rest Hng). cbn [wrap_square].
-      rewrite (q_square_stop d _ _ _ (not_lbracket_close_glue m rest Hf)). reflexivity.
-    - (* LowCardinality(u) *)
-      destruct fuel as [|f]; [lia|]. cbn [depth] in Hd.
-      unfold flag. cbn [trail Nat.odd andb]. rewrite Nat.sub_0_r.
-      cbn [print_dt]. cbn [app]. rewrite <- app_assoc. cbn [app glue W].
-      rewrite (helper_lowcard f _ Hi).
-      change (TRParen :: repeat TGt m ++ rest) with (repeat TGt 0 ++ TRParen :: repeat TGt m ++ rest).
-      rewrite (IH f 0%nat (TRParen :: repeat TGt m ++ rest)); [|lia|reflexivity].
-      unfold flag. rewrite Bool.andb_false_r. cbn [top_of close app Nat.sub glue].
-      rewrite (glue_repeat m rest Hng). cbn [wrap_square].
-      rewrite (q_square_stop d _ _ _ (not_lbracket_close_glue m rest Hf)). reflexivity.
-    - (* ARRAY<u> *)
-      destruct fuel as [|f]; [lia|]. cbn [depth] in Hd.
-      cbn [print_dt]. cbn [app]. rewrite <- app_assoc. cbn [app glue W].
-      rewrite (helper_angle f _ Hi Hs Hc).
-      change (TGt :: repeat TGt m ++ rest) with (repeat TGt (S m) ++ rest).
-      rewrite (IH f (S m) rest); [|lia|exact Hf].
-      unfold flag. cbn [trail]. rewrite Nat.odd_succ, <- Nat.negb_odd.
-      destruct (Nat.odd (trail u)) eqn:Eo; cbn [negb andb Nat.eqb].
-      + (* the child consumed [>>]: our own bracket is gone *)
-        cbn [q_close_angle wrap_square Nat.sub]. rewrite !Nat.sub_0_r.
-        rewrite (q_square_stop d _ _ _ (not_lbracket_close_glue m rest Hf)). reflexivity.
-      + destruct m as [|m']; cbn [Nat.eqb negb Nat.sub close app q_close_angle wrap_square].
-        * rewrite (q_square_stop d _ _ _ (not_lbracket_close_glue 0 rest Hf)). reflexivity.
-        * rewrite Nat.sub_0_r.
-          rewrite (q_square_stop d _ _ _ (not_lbracket_close_glue m' rest Hf)). reflexivity.
+    intros [Hn Hf]. destruct m as [|[|k]]; cbn [close app]; [|exact I|exact I].
+    apply not_lbracket_glue; [exact Hn|apply Hf; reflexivity].
   Qed.
 
+  (** the suffix loop takes exactly the printed suffixes *)
+  Lemma q_square_sufx l : forall t fuel tail,
+    forallb size_ok l = true -> (length l < fuel)%nat ->
+    match tail with TLBracket :: _ => False | _ => True end ->
+    q_square d fuel t (sufx l ++ tail) = Some (wrapsq t l, tail).
+  Proof.
+    induction l as [|n l IH]; intros t fuel tail Hs Hf Ht; cbn [sufx app wrapsq].
+    - destruct fuel as [|f]; [cbn in Hf; lia|]. apply q_square_stop. exact Ht.
+    - destruct fuel as [|f]; [cbn in Hf; lia|]. cbn [forallb] in Hs. apply andb_true_iff in Hs as [Hn Hs].
+      cbn [length] in Hf. cbn [q_square].
+      destruct n as [k|]; cbn [size_ok] in Hn; cbn [app].
+      + apply andb_true_iff in Hn as [Hk Hd]. rewrite Hd. cbn [uint]. rewrite Hk.
+        apply IH; [exact Hs|lia|exact Ht].
+      + destruct (mem_str d square_size_dialects); cbn [uint]; apply IH; try exact Hs; try lia; exact Ht.
+  Qed.
+
+  Lemma sufx_no_gt l : Forall not_gt (sufx l).
+  Proof.
+    induction l as [|n l IH]; cbn [sufx]; [constructor|].
+    constructor; [discriminate|]. destruct n; cbn [app]; repeat (constructor; [discriminate|]); exact IH.
+  Qed.
+
+  Lemma sufx_length l : (length (sufx l) >= length l)%nat.
+  Proof. induction l as [|n l IH]; cbn [sufx length]; [lia|]. rewrite app_length. cbn [length]. lia. Qed.
+
+  (** statement for the keyword part (types that are not themselves a [..[]] suffix form) *)
+  Definition main_inv (t : dt) : Prop :=
+    forall fuel m rest, (depth t < fuel)%nat -> cond_main m rest ->
+      parse_main T d fuel (glue (print_dt T t ++ repeat TGt m ++ rest)) =
+        POk t (flag t m) (close (m - (if flag t m then 1 else 0)) ++ glue rest).
+
+  (** statement for the whole helper, with any number of printed suffixes after the type *)
+  Definition helper_inv (t : dt) : Prop :=
+    forall fuel l m rest, (depth t < fuel)%nat -> forallb size_ok l = true -> cond_top m rest ->
+      parse_helper T d fuel (glue (print_dt T t ++ sufx l ++ repeat TGt m ++ rest)) =
+        POk (wrapsq t l) (match l with [] => flag t m | _ => false end)
+            (close (m - (match l with [] => if flag t m then 1 else 0 | _ => 0 end)) ++ glue rest).
+
+  Lemma cond_top_main m rest : cond_top m rest -> cond_main m rest.
+  Proof. intros [H1 H2]. split; [exact H1|]. intro E. apply follow_ok_main. apply H2. exact E. Qed.
+
+  Lemma helper_from_main t : main_inv t -> helper_inv t.
+  Proof.
+    intros HM fuel l m rest Hd Hs Hc. unfold parse_helper.
+    destruct l as [|n l].
+    - cbn [sufx app]. rewrite (HM fuel m rest Hd (cond_top_main _ _ Hc)). cbn [wrap_square wrapsq].
+      destruct (flag t m); [reflexivity|]. rewrite Nat.sub_0_r.
+      rewrite (q_square_stop d _ _ _ (not_lbracket_close_glue m rest Hc)). reflexivity.
+    - pose proof (HM fuel 0%nat (sufx (n :: l) ++ repeat TGt m ++ rest) Hd) as H.
+      cbn [repeat app] in H. rewrite H; clear H.
+      2:{ split; [cbn [sufx app]; exact I|]. intros _. reflexivity. }
+      unfold flag. rewrite Bool.andb_false_r. cbn [wrap_square close app Nat.sub].
+      rewrite (glue_nogt_app _ _ (sufx_no_gt (n :: l))).
+      destruct Hc as [Hn Hf].
+      rewrite (glue_repeat m rest (no_closer_gt _ Hn)).
+      rewrite (q_square_sufx (n :: l) t _ (close m ++ glue rest) Hs).
+      + rewrite Nat.sub_0_r. reflexivity.
+      + rewrite app_length. pose proof (sufx_length (n :: l)). lia.
+      + apply not_lbracket_close_glue. split; assumption.
+  Qed.
+
+  Theorem nest_inv t : PF t -> helper_inv t.
+  Proof.
+    induction 1 as [t Hl | u Hi _ IH | u Hi _ IH | u Hi Hs Hc _ IH | u n Hn _ IH].
+    - (* table-driven families *)
+      apply helper_from_main. intros fuel m rest Hd [Hn Hf].
+      destruct (leaf_trail T t Hl) as [Ht _]. unfold flag. rewrite Ht. cbn [Nat.odd andb]. rewrite Nat.sub_0_r.
+      rewrite (glue_nogt_app _ _ (leaf_no_gt T t Hl)). rewrite (glue_repeat m rest (no_closer_gt _ Hn)).
+      destruct fuel as [|f]; [lia|].
+      apply (leaf_main T d Hcons); [exact Hl|apply follow_main_close_glue; split; assumption].
+    - (* Nullable(u) *)
+      apply helper_from_main. intros fuel m rest Hd [Hn Hf].
+      destruct fuel as [|f]; [lia|]. cbn [depth] in Hd.
+      unfold flag. cbn [trail Nat.odd andb]. rewrite Nat.sub_0_r.
+      cbn [print_dt]. cbn [app]. rewrite <- app_assoc. cbn [app glue W].
+      rewrite (main_nullable f _ Hi).
+      pose proof (IH f [] 0%nat (TRParen :: repeat TGt m ++ rest)) as H. cbn [sufx repeat app] in H.
+      rewrite H; [|lia|reflexivity|split; [exact I|reflexivity]].
+      unfold flag. rewrite Bool.andb_false_r. cbn [wrapsq top_of close app Nat.sub glue].
+      rewrite (glue_repeat m rest (no_closer_gt _ Hn)). reflexivity.
+    - (* LowCardinality(u) *)
+      apply helper_from_main. intros fuel m rest Hd [Hn Hf].
+      destruct fuel as [|f]; [lia|]. cbn [depth] in Hd.
+      unfold flag. cbn [trail Nat.odd andb]. rewrite Nat.sub_0_r.
+      cbn [print_dt]. cbn [app]. rewrite <- app_assoc. cbn [app glue W].
+      rewrite (main_lowcard f _ Hi).
+      pose proof (IH f [] 0%nat (TRParen :: repeat TGt m ++ rest)) as H. cbn [sufx repeat app] in H.
+      rewrite H; [|lia|reflexivity|split; [exact I|reflexivity]].
+      unfold flag. rewrite Bool.andb_false_r. cbn [wrapsq top_of close app Nat.sub glue].
+      rewrite (glue_repeat m rest (no_closer_gt _ Hn)). reflexivity.
+    - (* ARRAY<u> *)
+      apply helper_from_main. intros fuel m rest Hd [Hn Hf].
+      destruct fuel as [|f]; [lia|]. cbn [depth] in Hd.
+      cbn [print_dt]. cbn [app]. rewrite <- app_assoc. cbn [app glue W].
+      rewrite (main_angle f _ Hi Hs Hc).
+      pose proof (IH f [] (S m) rest) as H. cbn [sufx repeat app] in H.
+      rewrite H; [|lia|reflexivity|split; [exact Hn|discriminate]].
+      cbn [wrapsq]. unfold flag. cbn [trail]. rewrite Nat.odd_succ, <- Nat.negb_odd.
+      destruct (Nat.odd (trail u)) eqn:Eo; cbn [negb andb Nat.eqb].
+      + cbn [q_close_angle Nat.sub]. rewrite !Nat.sub_0_r. reflexivity.
+      + destruct m as [|m']; cbn [Nat.eqb negb Nat.sub close app q_close_angle].
+        * reflexivity.
+        * rewrite Nat.sub_0_r. reflexivity.
+    - (* u[n]: one more suffix for u *)
+      intros fuel l m rest Hd Hs Hc. cbn [depth] in Hd.
+      pose proof (IH fuel (n :: l) m rest) as H.
+      cbn [print_dt]. rewrite <- app_assoc.
+      replace ((TLBracket :: match n with Some n0 => [TNum n0] | None => [] end ++ [TRBracket]) ++ sufx l ++ repeat TGt m ++ rest)
+        with (sufx (n :: l) ++ repeat TGt m ++ rest).
+      2:{ cbn [sufx app]. destruct n; cbn [app]; reflexivity. }
+      rewrite H; [|lia|cbn [forallb]; rewrite Hn, Hs; reflexivity|exact Hc].
+      cbn [wrapsq]. destruct l; [|reflexivity].
+      unfold flag. cbn [trail Nat.odd andb]. reflexivity.
+  Qed.
 
   (** the fuel [parse_dt] uses is enough *)
   Lemma leaf_print_head t : leaf_wf T t = true -> exists w tl, print_dt T t = TWord w :: tl.
@@ -595,12 +686,19 @@ Section Nest.
 
   Lemma depth_lt_len t : PF t -> forall tl, (depth t < length (glue (print_dt T t ++ tl)))%nat.
   Proof.
-    induction 1 as [t Hl | u Hi _ IH | u Hi _ IH | u Hi Hs Hc _ IH]; intro tl.
+    induction 1 as [t Hl | u Hi _ IH | u Hi _ IH | u Hi Hs Hc _ IH | u n Hn _ IH]; intro tl.
     - destruct (leaf_trail T t Hl) as [_ Hd]. rewrite Hd.
       destruct (leaf_print_head t Hl) as (w & tl' & E). rewrite E. cbn [app glue length]. lia.
     - cbn [print_dt depth]. cbn [app]. rewrite <- app_assoc. cbn [app glue W length]. specialize (IH (TRParen :: tl)). lia.
     - cbn [print_dt depth]. cbn [app]. rewrite <- app_assoc. cbn [app glue W length]. specialize (IH (TRParen :: tl)). lia.
     - cbn [print_dt depth]. cbn [app]. rewrite <- app_assoc. cbn [app glue W length]. specialize (IH (TGt :: tl)). lia.
+    - cbn [print_dt depth]. rewrite <- app_assoc. apply IH.
+  Qed.
+
+  Lemma follow_top_cond rest : follow_top T rest = true -> cond_top 0 rest.
+  Proof.
+    unfold follow_top. intro H. apply andb_true_iff in H as [H1 H2]. split; [|intros _; exact H1].
+    destruct rest as [|x r]; [exact I|]. destruct x; try exact I; discriminate.
   Qed.
 
   (** Printing and parsing back, followed by anything the type grammar cannot absorb. *)
@@ -609,8 +707,8 @@ Section Nest.
     parse_helper T d (S (length (glue (print_dt T t ++ rest)))) (glue (print_dt T t ++ rest)) = POk t false (glue rest).
   Proof.
     intros Hp Hf.
-    pose proof (nest_parse t Hp (S (length (glue (print_dt T t ++ rest)))) 0%nat rest) as H.
-    cbn [repeat app] in H. rewrite H; [|pose proof (depth_lt_len t Hp rest); lia|exact Hf].
+    pose proof (nest_inv t Hp (S (length (glue (print_dt T t ++ rest)))) [] 0%nat rest) as H.
+    cbn [sufx repeat app wrapsq] in H. rewrite H; [|pose proof (depth_lt_len t Hp rest); lia|reflexivity|apply follow_top_cond; exact Hf].
     unfold flag. rewrite Bool.andb_false_r. reflexivity.
   Qed.
 
